@@ -136,7 +136,7 @@ ARITH_METHODS = {"overflowing_add", "overflowing_sub", "overflowing_mul", "overf
                  "count_zeros", "leading_ones", "trailing_ones", "swap_bytes", "reverse_bits", "bit",
                  "bitand", "bitor", "bitxor", "long_mul", "unchecked_shl_internal", "unchecked_shr_internal",
                  "unchecked_shr_pad_internal", "unchecked_rotate_left", "overflowing_pow", "checked_pow", "wrapping_pow",
-                 "power_of_two", "widening_mul"}
+                 "power_of_two", "widening_mul", "gcd", "to_u128", "last_digit_index"}
 
 
 def ev(t, env, W):
@@ -350,6 +350,9 @@ def _atom(t, env, W):
         return _descend(label, m.group(2), t, env, W)
     args = [ev(a, env, W) for a in t[2]]
     adt = _adt_of_label(label)
+    if adt is None and label.startswith("core::cmp::Partial") and len(args) == 2 and isinstance(args[0], BN) \
+            and isinstance(args[1], BN) and args[0].adt == args[1].adt:
+        return _cmp_name(name, args[0].v, args[1].v)
     if adt is None:
         # primitive receivers
         if args and isinstance(args[0], PI):
@@ -401,7 +404,15 @@ def _arith(name, label, args, W, generics=None):
         if 0 <= args[0].v < W.bits(adt):
             return W.wrap(adt, 1 << args[0].v)
         return OPAQUE
-    if adt is None or label.startswith("<") or not args or not isinstance(args[0], BN) or args[0].adt != adt:
+    if adt is None or not args or not isinstance(args[0], BN) or args[0].adt != adt:
+        return OPAQUE
+    if label.startswith("<"):
+        # trait-impl terminals with a documented meaning
+        if adt in UNSIGNED and name == "gcd" and "num_integer::Integer" in label and len(args) == 2 and isinstance(args[1], BN):
+            import math
+            return W.wrap(adt, math.gcd(args[0].v, args[1].v))
+        if adt in UNSIGNED and name == "to_u128" and "ToPrimitive" in label and len(args) == 1:
+            return ("Some", PI("u128", args[0].v)) if args[0].v < (1 << 128) else ("None",)
         return OPAQUE
     w = W.bits(adt)
     signed = adt in SIGNED
@@ -477,6 +488,9 @@ def _arith(name, label, args, W, generics=None):
             return PI("u32", bin(x).count("1"))
         if name == "count_zeros":
             return PI("u32", w - bin(x).count("1"))
+        if name == "last_digit_index":
+            db = DIGIT_BITS[DIGIT[adt]]
+            return PI("usize", max(0, (x.bit_length() - 1) // db) if x else 0)
         if name == "leading_ones":
             return PI("u32", w - (x ^ ((1 << w) - 1)).bit_length())
         if name == "trailing_ones":
